@@ -3,7 +3,7 @@
 From Coq Require Import Reals Lra QArith Qreals List.
 Import ListNotations.
 From Coq Require PrimFloat.
-From EsVerif.C08 Require Import Gen Model Spec Proofs Code SrcLib Src SrcProofs SrcLibF SrcF FProofs Cond Cond2 Cond3 Final Rounding Rounding2 Rounding3 ArrayLayer Examples.
+From EsVerif.C08 Require Import Gen Model Spec Proofs Code SrcLib Src SrcProofs SrcLibF SrcF FProofs Cond Cond2 Cond3 Final Rounding Rounding2 Rounding3 Rounding4 ArrayLayer Examples.
 Open Scope R_scope.
 
 (* The two formulas of the chord-based function are the great-circle angle of unit vectors. *)
@@ -354,6 +354,33 @@ Proof. exact gcirc_rounding. Qed.
 Theorem C08_rounding_binary64 : chord_branch_binary64_stmt /\ cross_branch_binary64_stmt /\ gcirc_binary64_stmt.
 Proof. exact rounding_binary64_thm. Qed.
 
+(* The chord branch of sphdist from DEGREES TO DEGREES, assembled from the stage theorems: |ra| <= 360, |dec| <= 90;
+   every numpy operation rounds once (|delta| <= u = 2^-53: the four deg2rad products m1..m4 with the rounded constant
+   dc, the products dx, dy of the vector components, the nine operations d11..d6 of differences-squares-sum-sqrt, the
+   rad2deg constant dk and product dr); libm's cos / sin values within u of cos / sin of the COMPUTED arguments, np.arcsin
+   within 2u; the code's test `dsq >= 3.99` false on the COMPUTED dsq.  Then the number returned is within the
+   statement's 1e-11 degree of the model, i.e. of the true great-circle angle in degrees. *)
+Theorem C08_sphdist_chord_degrees_binary64 :
+  forall ra1 dec1 ra2 dec2 dc m1 m2 m3 m4 c1 s1 cp1 sp1 c2 s2 cp2 sp2 dx1 dy1 dx2 dy2
+         d11 d12 d21 d22 d31 d32 d4 d5 d6 a' dk dr,
+  Rabs ra1 <= 360 -> Rabs ra2 <= 360 -> Rabs dec1 <= 90 -> Rabs dec2 <= 90 ->
+  Rabs dc <= u64 -> Rabs m1 <= u64 -> Rabs m2 <= u64 -> Rabs m3 <= u64 -> Rabs m4 <= u64 ->
+  let th1' := fl_d2r ra1 dc m1 in let ph1' := fl_d2r dec1 dc m2 in
+  let th2' := fl_d2r ra2 dc m3 in let ph2' := fl_d2r dec2 dc m4 in
+  Rabs (c1 - cos th1') <= u64 -> Rabs (s1 - sin th1') <= u64 -> Rabs (cp1 - cos ph1') <= u64 -> Rabs (sp1 - sin ph1') <= u64 ->
+  Rabs (c2 - cos th2') <= u64 -> Rabs (s2 - sin th2') <= u64 -> Rabs (cp2 - cos ph2') <= u64 -> Rabs (sp2 - sin ph2') <= u64 ->
+  Rabs dx1 <= u64 -> Rabs dy1 <= u64 -> Rabs dx2 <= u64 -> Rabs dy2 <= u64 ->
+  Rabs d11 <= u64 -> Rabs d12 <= u64 -> Rabs d21 <= u64 -> Rabs d22 <= u64 -> Rabs d31 <= u64 -> Rabs d32 <= u64 ->
+  Rabs d4 <= u64 -> Rabs d5 <= u64 -> Rabs d6 <= u64 ->
+  let u' := fl_vec c1 s1 cp1 sp1 dx1 dy1 in let v' := fl_vec c2 s2 cp2 sp2 dx2 dy2 in
+  let dsq := fl_dsq u' v' d11 d12 d21 d22 d31 d32 d4 d5 in
+  let d' := sqrt dsq * (1 + d6) in
+  dsq < sphdist_thr ->
+  Rabs (a' - asin (/ 2 * d')) <= 2 * u64 ->
+  Rabs dk <= u64 -> Rabs dr <= u64 ->
+  Rabs (2 * a' * (180 / PI * (1 + dk)) * (1 + dr) - sphdist_code Deg Deg ra1 dec1 ra2 dec2) <= 1 / 10 ^ 11.
+Proof. exact sphdist_chord_degrees_binary64. Qed.
+
 (* non-vacuity of the new theorems: concrete, non-trivial instances satisfying every hypothesis *)
 Example C08_chord_branch_binary64_nonvacuous :
   let d' := norm3 (vsub (point 0 0) (point (PI / 2) 0)) in
@@ -374,3 +401,7 @@ Example C08_array_layer_nonvacuous :
   = [sphdist_code Deg Deg 0 0 90 0; sphdist_code Deg Deg 0 0 180 0; 0]
   /\ length (gcirc_vec [(0, 0, 90, 0); (0, 0, 180, 0)]) = 2%nat.
 Proof. exact array_layer_instance. Qed.
+
+Example C08_sphdist_chord_degrees_nonvacuous :
+  Rabs (2 * asin (/ 2 * (sqrt 2 * (1 + 0))) * (180 / PI * (1 + 0)) * (1 + 0) - sphdist_code Deg Deg 0 0 90 0) <= 1 / 10 ^ 11.
+Proof. exact sphdist_chord_degrees_instance. Qed.
